@@ -467,16 +467,12 @@ func (p *Parser) parseMultiSelectHash() (ASTNode, error) {
 		}
 		children = append(children, node)
 		if p.current() == tComma {
-			err := p.match(tComma)
-			if err != nil {
-				return ASTNode{}, nil
-			}
+			p.advance()
 		} else if p.current() == tRbrace {
-			err := p.match(tRbrace)
-			if err != nil {
-				return ASTNode{}, nil
-			}
+			p.advance()
 			break
+		} else {
+			return ASTNode{}, p.syntaxError("Expected tComma or tRbrace, received: " + p.current().String())
 		}
 	}
 	return ASTNode{
